@@ -139,13 +139,13 @@ class GnssUBlox(UbxServerBase_):
             for entry in data_json:
                 try:
                     data_map = json.loads(entry)
-                    if 'class' in data_map:
+                    if isinstance(data_map, dict) and 'class' in data_map:
                         msg_class = data_map['class']
                         if msg_class == 'VERSION':
                             self._parse_version(data_map)
                         elif msg_class == 'DEVICES':
                             self._parse_devices(data_map)
-                except json.decoder.JSONDecodeError:
+                except (json.decoder.JSONDecodeError, RecursionError):
                     # Decoding error will happen if NMEA or other
                     # data is received here
                     pass
